@@ -5,7 +5,7 @@ from lib import common as C, models as M
 GEN = ['BlockFacts']
 IMPORTS = ['C03/basis_product', 'C03/mul_den', 'C03/rs_matrix_den', 'C03/rmatmul_den', 'C03/add_den', 'C03/dense_add_den', 'C14/compose_is_block_product', 'C14/apply_is_block_matvec', 'C14/pack_unpack_index', 'C03/prune_thresholds']
 TRUSTED = ['linear solves deliver the inverses assumed by the theorem (inner block and Schur complement)', 'C04, C05 (chain rule and single-level solve)']
-ASSUMPTIONS = ['no executable correspondence: tie = structural facts extracted from solved_block.py + paired flat/nested runs on the implementation',
+ASSUMPTIONS = ['executable nested models: Jacobians (Model/GET.v solved_block) and nonlinear paths (Model/NLNested.v), one level of nesting; deeper nestings: paired flat/nested runs on the implementation',
                'uniqueness / convergence of the inner solves is assumed']
 HEADER = ''
 
@@ -76,11 +76,136 @@ def correspondence(ctx):
             dis.append(dict(what='the Jacobian of a model containing a solved block differs from the executable nested model at horizon T', case=c, impl=bad[:2]))
     for l in logs:
         dis.append(dict(what='coq evaluation failed', log=l))
-    return dict(evaluations=len(cases), distinct_nontrivial=len({C.canon(c['spec']) for c in cases}),
-                rule='generated linear models with leads and lags (|shift| <= 2, 1-3 unknowns, horizons 3-6): one unknown/target pair wrapped as a SolvedBlock, listing shuffled; plain Jacobian (no outer '
+    rnl = correspondence_nl(ctx, 24 if ctx['tier'] == 'quick' else 160)
+    dis += rnl['disagreements']
+    stats['nonlinear'] = rnl['stats']
+    return dict(evaluations=len(cases) + rnl['evaluations'], distinct_nontrivial=len({C.canon(c['spec']) for c in cases}) + len({C.canon(sp) for sp in rnl['specs']}),
+                rule='NONLINEAR: generated polynomial models containing a solved block (own unknown, one or two inner blocks incl. one that may read only unshocked parameters; 0-2 outer unknowns, horizons 3-4, shuffled listing, '
+                     '30% from a distinct initial steady state): impulse_nonlinear (no outer unknown) or the first and last outer Newton iteration of solve_impulse_nonlinear replayed by Model/NLNested.v from the '
+                     "implementation's outer iterate with the inner solve run in full inside the model: every returned path to 1e-11, stopping decision, next outer iterate (1e-6). LINEAR: "
+                     'generated linear models with leads and lags (|shift| <= 2, 1-3 unknowns, horizons 3-6): one unknown/target pair wrapped as a SolvedBlock, listing shuffled; plain Jacobian (no outer '
                      'unknown left) or general-equilibrium Jacobian (outer unknowns left) of the nested model for every exogenous input and non-target output vs the executable rational model '
                      '(Model/GET.v: solved block = inner horizon-T solve as a dense block of the outer DAG), compared to 1e-9',
                 samples=[dict(spec=c['spec'], wrapped=c['wrapped']) for c in cases[:1]], disagreements=dis, stats=stats)
+
+
+def correspondence_nl(ctx, n):
+    """nonlinear paths of generated models that CONTAIN a solved block: every outer Newton iteration of solve_impulse_nonlinear (or the single evaluation of impulse_nonlinear when
+    no outer unknown is left) is replayed by Model/NLNested.v from the implementation's own outer iterate; the inner solve runs in full inside the model."""
+    from sequence_jacobian import combine
+    from lib import nlmodels as NL
+    rng = ctx['rng']
+    specs = [NL.gen_nested_model(rng) for _ in range(n)]
+    mod = NL.write_module(f'c11_{ctx["seed"]}_{ctx["tier"]}', specs)
+    tol, maxit, itol, imaxit = 2.0 ** -27, 12, 2.0 ** -30, 10
+    hdr = NL.HEADER.replace('Model.NLSolve.', 'Model.NLSolve Model.NLNested.')
+    exprs, meta, dis = [], [], []
+    stats = dict(built=0, steady_state_failed=0, converged=0, raised_no_convergence=0, outer_iterations={}, steps_replayed=0, inner_iteration_mismatch=0, model_none=0, no_outer_unknowns=0, two_inner_blocks=0)
+    for mi, spec in enumerate(specs):
+        sv = spec['solved']
+        objs = {b['name']: getattr(mod, f'm{mi}_{b["name"]}') for b in spec['blocks']}
+        v, h = f'x{sv["U"][0]}', f'x{sv["Tg"][0]}'
+        case = dict(spec=spec)
+        try:
+            inner_objs = [objs[nm_] for nm_ in sv['inner']]
+            rng.shuffle(inner_objs)
+            innerc = combine(inner_objs, name=f'in{mi}')
+            sb = innerc.solved(unknowns={v: (-3.0, 3.0)}, targets=[h], solver='brentq', name=f'solved{mi}')
+            others = [o for nm_, o in objs.items() if nm_ not in sv['inner']]
+            rng.shuffle(others)
+            model = combine(others + [sb], name=f'nest{mi}')
+            ss = model.steady_state({f'x{k}': val for k, val in spec['calib'].items()})
+            use_initial = rng.random() < 0.3
+            ss0 = model.steady_state({f'x{k}': val for k, val in spec['calib0'].items()}) if use_initial else None
+        except Exception as ex:
+            stats['steady_state_failed'] += 1
+            stats.setdefault('steady_state_errors', []).append(f'{type(ex).__name__}: {str(ex)[:160]}')
+            continue
+        stats['built'] += 1
+        stats['two_inner_blocks'] += int(len(sv['inner']) == 2)
+        U, Tg, T, N = [f'x{u}' for u in spec['U']], [f'x{t}' for t in spec['Tg']], spec['T'], spec['N']
+        shocks = {f'x{z}': np.array(p) for z, p in spec['shocks'].items()}
+        options = {model.name: dict(tol=tol, maxit=maxit, verbose=False), sb.name: dict(tol=itol, maxit=imaxit, verbose=False)}
+        order = [(b.name, [ib.name.split('_', 1)[1] for ib in innerc.blocks]) if b.name == sb.name else b.name.split('_', 1)[1] for b in model.blocks]
+        prog = NL.coq_nprog(spec, order)
+        case.update(listing=[str(o) for o in order], distinct_initial_steady_state=use_initial)
+        fixed = (f'{"true" if use_initial else "false"} {imaxit} {NL.qf(itol)} {N} {T}%Z {NL.coq_tbl(ss, N)} {NL.coq_tbl(ss0 if use_initial else ss, N)} {prog}')
+        kw = {} if ss0 is None else dict(ss_initial=ss0)
+        if not U:
+            stats['no_outer_unknowns'] += 1
+            try:
+                r = model.impulse_nonlinear(ss, shocks, options=options, **kw)
+            except Exception as ex:
+                r = f'raised {type(ex).__name__}: {str(ex)[:120]}'
+            outs = sorted(int(k[1:]) for k in r) if not isinstance(r, str) else []
+            exprs.append(f'option_map (fun r => (r, true, @None (list (list (Z * Z))))) (run_nn_eval {fixed} {NL.coq_devs([(int(z[1:]), p) for z, p in shocks.items()])} {C.coq_list(outs, str)})')
+            meta.append((case, 0, [(None, r)], outs, U, Tg, None, 'evaluated'))
+            continue
+        trace = []
+        orig = model.impulse_nonlinear
+
+        def spy(ss_, inputs, *a, _orig=orig, _trace=trace, **kw_):
+            r_ = _orig(ss_, inputs, *a, **kw_)
+            _trace.append(({k: np.array(inputs[k], float) for k in inputs}, {k: np.array(r_[k], float) for k in r_}))
+            return r_
+        model.impulse_nonlinear = spy
+        outcome, ret = 'converged', None
+        try:
+            ret = model.solve_impulse_nonlinear(ss, U, Tg, shocks, options=options, **kw)
+        except ValueError as ex:
+            outcome = 'raised' if 'No convergence' in str(ex) else f'raised {ex}'
+        except Exception as ex:
+            outcome = f'raised {type(ex).__name__}: {ex}'
+        del model.impulse_nonlinear
+        case.update(outcome=outcome, iterations=len(trace))
+        if outcome not in ('converged', 'raised') or not trace:
+            dis.append(dict(what='solve_impulse_nonlinear on a generated model containing a solved block failed unexpectedly', case=case))
+            continue
+        stats['converged' if outcome == 'converged' else 'raised_no_convergence'] += 1
+        stats['outer_iterations'][len(trace)] = stats['outer_iterations'].get(len(trace), 0) + 1
+        outs = sorted(set(int(k[1:]) for k in trace[0][1]))
+        for k in sorted(set([0, len(trace) - 1])):
+            Uk = [trace[k][0][u] for u in U]
+            exprs.append(f'run_nn_step {fixed} {C.coq_list([int(u[1:]) for u in U], str)} {C.coq_list([int(t[1:]) for t in Tg], str)} '
+                         f'{NL.coq_devs([(int(z[1:]), p) for z, p in shocks.items()])} {NL.qf(tol)} {C.coq_list(Uk, lambda p: C.coq_list(p, NL.qf))} {C.coq_list(outs, str)}')
+            meta.append((case, k, trace, outs, U, Tg, ret, outcome))
+    vals, logs = C.eval_in_coq('C11', hdr, exprs, chunk=2, tag='nnl')
+    F = NL.frac
+    for (case, k, trace, outs, U, Tg, ret, outcome), vm in zip(meta, vals):
+        if vm is None or vm == 'None':
+            stats['model_none'] += 1      # the exact inner solve stopped at another iteration count than the floating-point one, or a singular system
+            continue
+        body = vm[1] if isinstance(vm, tuple) and len(vm) == 2 and vm[0] == 'Some' else vm
+        res_m, ok_m, nxt_m = body
+        res_i = trace[k][1]
+        if isinstance(res_i, str):
+            dis.append(dict(what='impulse_nonlinear of a model containing a solved block raised where the executable nested model returns', case=dict(case, impl=res_i)))
+            continue
+        stats['steps_replayed'] += 1
+        bad = []
+        for o, pm in zip(outs, res_m):
+            pi = res_i[f'x{o}']
+            pmf = np.array([float(F(x)) for x in pm])
+            stats["max_path_diff"] = max(stats.get("max_path_diff", 0.0), float(np.abs(pmf - pi).max()) if len(pmf) == len(pi) else 1.0)
+            if len(pmf) != len(pi) or np.abs(pmf - pi).max() > 1e-11 * max(1.0, np.abs(pmf).max()):
+                bad.append(f'path of x{o}: model {pmf.tolist()} implementation {np.asarray(pi).tolist()}')
+        if outcome != 'evaluated':
+            err = max(np.abs(res_i[t]).max() for t in Tg)
+            last = k == len(trace) - 1
+            stopped = last and outcome == 'converged'
+            if abs(err - 2.0 ** -27) > 1e-9 and bool(ok_m) != stopped:
+                bad.append(f'stopping decision (model {ok_m}, implementation {"stopped" if stopped else "continued"})')
+            nxt = nxt_m[1] if isinstance(nxt_m, tuple) and nxt_m[0] == 'Some' else nxt_m
+            if nxt is not None and nxt != 'None' and not last:
+                for u, pm in zip(U, nxt):
+                    pmf = np.array([float(F(x)) for x in pm])
+                    if np.abs(pmf - trace[k + 1][0][u]).max() > 1e-6 * max(1.0, np.abs(pmf).max()):
+                        bad.append(f'next iterate of {u}')
+        if bad:
+            dis.append(dict(what='nonlinear path of a model containing a solved block differs from the executable nested model', case=dict(case, iteration=k, differing=bad[:4])))
+    for l in logs:
+        dis.append(dict(what='coq evaluation failed', log=l))
+    return dict(evaluations=len(exprs), disagreements=dis, stats=stats, specs=specs)
 
 
 def check(rng, override=None):
@@ -196,9 +321,69 @@ def check(rng, override=None):
     return out, n
 
 
+def unaffected_inner_output():
+    """D29: a solved block one of whose inner blocks reads only names that are never shocked (a parameter): its output is an output of the solved block that no input or unknown
+    affects.  The nested model must give the Jacobians and the nonlinear path of the flat model (the inner output simply has no Jacobian)."""
+    from sequence_jacobian import simple, combine
+
+    @simple
+    def imid(par):
+        w = -par(+1)
+        return w
+
+    @simple
+    def itgt(z, u, v, w):
+        h = -8.0 * v - (u * z)(+1) + w * w(+2)
+        return h
+
+    @simple
+    def otgt(u, v, w):
+        g = -8.0 * u + 0.5 * w(+2) ** 2 + 0.25 * v(-2) ** 2
+        return g
+
+    @simple
+    def post(v):
+        y = 0.5 * v(-1) + v * v
+        return y
+    T = 4
+    inp = dict(kind='unaffected-inner-output')
+    sig = dict(op='solved-block', cond='inner-output-unaffected-by-any-input')
+    try:
+        sb = combine([imid, itgt], name='inner').solved(unknowns={'v': (-3.0, 3.0)}, targets=['h'], solver='brentq', name='sb')
+        nested = combine([post, otgt, sb], name='nest')
+        flat = combine([post, otgt, imid, itgt], name='flat')
+        ss = nested.steady_state({'z': 1.25, 'u': 1.0, 'par': 1.0})
+        shocks = {'z': np.array([0.0, 0.125, 0.0625, 0.125])}
+        opts = dict(verbose=False, tol=1e-12)
+        rf = flat.solve_impulse_nonlinear(ss, ['u', 'v'], ['g', 'h'], shocks, options={'flat': opts})
+    except Exception as ex:
+        return dict(what=f'D29 probe could not be set up: {type(ex).__name__}: {ex}', input=inp, signature=dict(op='raise'))
+    bad = []
+    try:
+        rn = nested.solve_impulse_nonlinear(ss, ['u'], ['g'], shocks, options={'nest': opts, 'sb': opts})
+        bad += [f'nonlinear path of {k}' for k in ('u', 'v', 'y') if np.abs(rn[k] - rf[k]).max() > 1e-9]
+    except Exception as ex:
+        bad.append(f'nested.solve_impulse_nonlinear raised {type(ex).__name__}: {ex}')
+    try:
+        Jn = sb.jacobian(ss, ['z', 'u'], T=T)
+        Gf = combine([imid, itgt], name='i2').solve_jacobian(ss, ['v'], ['h'], ['z', 'u'], T=T)
+        bad += [f'own Jacobian {o}/{i}' for o in ('v',) for i in ('z', 'u') if np.abs(M.dense(Jn[o][i], T) - M.dense(Gf[o][i], T)).max() > 1e-10]
+        if 'w' in Jn.outputs and any(np.abs(M.dense(Jn['w'][i], T)).max() > 0 for i in Jn['w']):
+            bad.append('non-zero Jacobian reported for an output that no input affects')
+    except Exception as ex:
+        bad.append(f'SolvedBlock.jacobian raised {type(ex).__name__}: {ex}')
+    if bad:
+        return dict(what='a solved block with an inner output that no input or unknown affects does not behave like the flat model', input=inp, observed=bad[:4], signature=sig)
+    return None
+
+
 def oracle(ctx, hints, broken):
     try:
         viol, n = check(ctx['rng'])
+        v0 = unaffected_inner_output()
+        n += 1
+        if v0:
+            viol.append(v0)
         v3, n3 = M.check_shift_ge(ctx['rng'], 8 if ctx['tier'] == 'quick' and not broken else 50, True, 'c11')
         viol, n = viol + v3, n + n3
         skipped = 0
@@ -226,5 +411,7 @@ def oracle(ctx, hints, broken):
 
 
 def replay(rp):
+    if (rp.get('input') or {}).get('kind') == 'unaffected-inner-output':
+        return unaffected_inner_output()
     v = check(C.Rng(0), (rp.get('input') or {}).get('calib_override'))[0]
     return v[0] if v else None
